@@ -1,9 +1,12 @@
+#![allow(dead_code, unused_imports, deprecated, clippy::too_many_arguments)]
 mod checks;
+mod crash;
 mod coord;
 mod disk;
 mod gen;
 mod model;
 mod ops;
+mod oracle;
 mod reads;
 mod rng;
 mod runner;
